@@ -56,6 +56,7 @@ func runScript(script []string, fl flags) *runResult {
 		return res
 	}
 	w := newWorld(cs, maxMsg)
+	w.fl = fl
 	res.add(script[0], "reset", "ok")
 	res.add(script[0], fl.cfgLine(cs, maxMsg), "ok")
 	decSeen := map[string]bool{}
